@@ -166,7 +166,9 @@ pub fn run_party<T: Send + 'static>(keys: Keys, f: impl FnOnce() -> T + Send + '
             }
             // party time: derived from the keys, so no two parties agree on what time it is
             seams::enter_party_clock(party_time_ns(&keys), party_clock_step_ns(&keys));
+            seams::enter_party_env(vec![]);
             let r = guarded(f);
+            seams::leave_party_env();
             seams::leave_party_clock();
             r
         })
